@@ -99,8 +99,10 @@ template <typename Arr> struct ArrElem;
 template <typename T, size_t N> struct ArrElem<T[N]> { using type = T; enum : size_t { n = N }; };
 template <typename T, size_t N> struct ArrElem<std::array<T, N>> { using type = T; enum : size_t { n = N }; };
 template <typename Arr, typename Sz> Sch lb_schema(bool unbounded = false) { using T = typename ArrElem<Arr>::type; return seq_schema<T>(unbounded ? Len::VAR : Len::CAP, ArrElem<Arr>::n); }
+// set when an object is inspected whose size member does not fit its array (an application walking a[0..n) would leave the object)
+inline bool& lb_inspected_out_of_range() { static thread_local bool f = false; return f; }
 template <typename Arr, typename Sz> Val lb_to(const Arr& a, const Sz& n) {
-  using T = typename ArrElem<Arr>::type; size_t c = (size_t)n; if (c > ArrElem<Arr>::n) c = ArrElem<Arr>::n;   // never walk past the array
+  using T = typename ArrElem<Arr>::type; size_t c = (size_t)n; if (n < Sz(0) || c > ArrElem<Arr>::n) { c = (n < Sz(0)) ? 0 : ArrElem<Arr>::n; lb_inspected_out_of_range() = true; }   // never walk past the array
   return seq_to<T>(&a[0], &a[0] + c, IsInt<T>{});
 }
 // A Val with more elements than the capacity stores `capacity` elements and sets the size member to the Val's
